@@ -1,4 +1,4 @@
-SPECIFICATION TSpec
+SPECIFICATION CSpec
 CONSTANTS
   MaxLen = 0
   MaxClock = 0
@@ -7,8 +7,6 @@ CONSTANTS
   MaxJ = 0
   Strict = TRUE
   JumboInside = TRUE
-  ExportUnspecLen = 4
   ExportUnspecLen = 0
   Variant = "code"
-POSTCONDITION Report
 CHECK_DEADLOCK FALSE
